@@ -647,7 +647,7 @@ func (h *dbHist) trusted(s int) {
 }
 
 // explore: for every trusted state s and every call: honest run (completeness), then every single alteration.
-func (h *dbHist) explore(calls []call, maxS int, mode string) {
+func (h *dbHist) explore(calls []call, maxS int, mode string, forks ...*dbHist) {
 	ctx := context.Background()
 	for s := 1; s <= maxS; s++ {
 		for _, cl := range calls {
@@ -713,6 +713,35 @@ func (h *dbHist) explore(calls []call, maxS int, mode string) {
 					h.stats["accepted_other_true_result"]++
 				}
 			}
+			// whole answers of a forked database (same number of transactions, different content): a coordinated
+			// forgery no single alteration produces. Only where the fork differs at or before the trusted tx.
+			for _, f := range forks {
+				if s > f.n || bytes.Equal(h.alh[s], f.alh[s]) || !(strings.HasPrefix(cl.name, "VerifiedGet") || strings.HasPrefix(cl.name, "VerifiedTxByID")) {
+					continue
+				}
+				h.trusted(s)
+				h.svc.alter, h.svc.armed = nil, false
+				real := h.svc.db
+				h.svc.db = f.db
+				var bad string
+				var err error
+				c.AddEvals(1)
+				pn := lib.Catch(func() { _, bad, err = cl.run(ctx, h) })
+				h.svc.db = real
+				h.stats["whole_fork_answers"]++
+				if pn != "" || err != nil {
+					h.stats["rejected"]++
+					continue
+				}
+				if bad == "" {
+					bad = h.stateBad()
+				}
+				if bad == "" {
+					bad = fmt.Sprintf("an answer produced by the forked database %s was accepted against trusted state %d of %s", f.name, s, h.name)
+				}
+				cnt.forged++
+				viol(fmt.Sprintf("client-accepts-fork api=client.%s trusted=%d response=whole-answer-of-fork hist=%s/%s fork=%s", cl.name, s, h.name, mode, f.name), bad, map[string]any{"client": true})
+			}
 		}
 	}
 }
@@ -760,6 +789,8 @@ func runClient() {
 			must(err)
 			if ver == 1 {
 				_, err = db.Delete(ctx, &schema.DeleteKeysRequest{Keys: [][]byte{[]byte("b")}})
+			} else if ver == 2 { // (content of the fork of the header-v0 history)
+				_, err = db.Set(ctx, &schema.SetRequest{KVs: []*schema.KeyValue{{Key: []byte("a"), Value: []byte("w")}}})
 			} else {
 				_, err = db.Set(ctx, &schema.SetRequest{KVs: []*schema.KeyValue{{Key: []byte("a"), Value: []byte("y")}}})
 			}
@@ -782,10 +813,12 @@ func runClient() {
 				continue
 			}
 			h := newDBHist(fmt.Sprintf("kv-v%d", ver), ver, signing, kv(ver))
+			f := newDBHist(fmt.Sprintf("kv-v%d-fork", ver), ver, signing, kv(map[int]int{1: 0, 0: 2}[ver])) // same header version, other tx 5
 			mode := map[bool]string{false: "nosig", true: "sig"}[signing]
-			h.explore(kvCalls(ver), 5, mode)
+			h.explore(kvCalls(ver), 5, mode, f)
 			h.report()
 			h.close()
+			f.close()
 		}
 	}
 	h := newDBHist("sql-v1", 1, false, func(ctx context.Context, db database.DB) {
